@@ -51,6 +51,8 @@ func main() {
 		cmdRepl(os.Args[2:])
 	case "replrestore":
 		cmdReplRestore(os.Args[2:])
+	case "conns":
+		cmdConns(os.Args[2:])
 	case "evict":
 		cmdEvict(os.Args[2:])
 	default:
@@ -81,6 +83,8 @@ func cmdSeq(args []string) {
 		progs = RandomKVPrograms(*seed, *n, *length, KVProfile{Canonical: true, Sample: 9, TickHeavy: true, ExpiryMix: true})
 	case "multidb":
 		progs = RandomKVPrograms(*seed, *n, *length, KVProfile{Canonical: true, Select: 5, Sample: 25, Dbs: []int{0, 1, 10}})
+	case "multidb-swap":
+		progs = RandomKVPrograms(*seed, *n, *length, KVProfile{Canonical: true, Select: 5, Sample: 25, Swap: 12, Dbs: []int{0, 1, 10}})
 	case "hash":
 		progs = RandomHashPrograms(*seed, *n, *length)
 	case "list":
